@@ -20,7 +20,7 @@ def check(p, t):
         s, a, e = [int(x[0]) for x in np.nonzero(pr < 0)]
         return [(f"negative:{kind}:{core.case_hash(p)[:10]}", f"negative probability {pr[s, a, e]} at state {t['states'][s].tolist()}, action {t['actions'][a].tolist()}, event {t['events'][e].tolist()}")]
     sums = pr.sum(axis=2)
-    bad = np.abs(sums - 1.0) > TOL
+    bad = ~(np.abs(sums - 1.0) <= TOL)
     if bad.any():
         if kind == "hendrix":
             # known finding: the deficit must be EXACTLY the closed-form truncation loss, anything else is new
@@ -32,7 +32,7 @@ def check(p, t):
                 if key not in cache:
                     cache[key] = PR.hendrix_lost_mass(P, *key)
                 lost = cache[key]
-                if abs((1.0 - sums[si, ai]) - lost) > 1e-6:
+                if not (abs((1.0 - sums[si, ai]) - lost) <= 1e-6):
                     return [(f"rowsum:{kind}:{core.case_hash(p)[:10]}", f"row of state {s}, action {t['actions'][ai].tolist()} sums to {sums[si, ai]:.6f}; the demand-truncation closed form explains a deficit of {lost:.6f} only")]
             si, ai = [int(x[0]) for x in np.nonzero(bad)]
             out.append((KNOWN_HENDRIX, f"Hendrix row sums down to {sums.min():.4f} (e.g. state {t['states'][si].tolist()}): mass lost to the demand truncation point, equal to the closed form"))
